@@ -100,6 +100,13 @@ def histories(tier, seed):
                     two = (j % 3 == 2)
                     x = dict(sc, space=space, seed=seed * 100 + si + 1)
                     p0 = dict(scripts[(si + 1) % len(scripts)], seed=77)
+                    if j % 4 == 1:
+                        # the earlier simulation ran on a grid of the SAME dimensions with other boundary conditions (or the
+                        # script under test does): nothing computed for one set-up may serve the next
+                        p0 = dict(sc, space="grid", seed=77, bc="x")
+                    elif j % 4 == 3 and space == "grid":
+                        x = dict(x, bc="x")
+                        p0 = dict(sc, space="grid", seed=77)
                     p1 = dict(scripts[(si + 2) % len(scripts)], space="graph", seed=78)
                     calls = schedule(rng, two)
                     kinds = {"e1": kind}
